@@ -77,9 +77,14 @@ pub fn cmd_codec(args: &[String]) -> i32 {
 // ---------------------------------------------------------- reassembler
 
 fn sample_bytes<T: Sample<Type = T> + Copy>(r: &ReadStream<T>) -> Vec<Vec<u8>> {
+    sample_bytes_n(r, -1)
+}
+
+/// Take at most `max` samples out of the stream (-1: all there is).
+fn sample_bytes_n<T: Sample<Type = T> + Copy>(r: &ReadStream<T>, max: i64) -> Vec<Vec<u8>> {
     let (w, _) = r.read_buf().unwrap();
-    let v: Vec<Vec<u8>> = w.slice().iter().map(|s| s.serialize()).collect();
-    let n = w.len();
+    let n = if max < 0 { w.len() } else { w.len().min(max as usize) };
+    let v: Vec<Vec<u8>> = w.slice()[..n].iter().map(|s| s.serialize()).collect();
     w.consume(n);
     v
 }
@@ -125,7 +130,7 @@ where
     (got, verdicts, panic)
 }
 
-fn reasm_tcp<T>(bytes: &[u8], pieces: &[usize]) -> (Vec<Vec<u8>>, Vec<String>, String)
+fn reasm_tcp<T>(bytes: &[u8], pieces: &[usize], drains: &[i64]) -> (Vec<Vec<u8>>, Vec<String>, String)
 where
     T: Sample<Type = T> + Copy + Default + std::fmt::Debug,
 {
@@ -138,7 +143,7 @@ where
     let mut verdicts = Vec::new();
     let mut pos = 0;
     let mut panic = String::new();
-    for p in pieces {
+    for (k, p) in pieces.iter().enumerate() {
         conn.write_all(&bytes[pos..pos + p]).unwrap();
         conn.flush().unwrap();
         pos += p;
@@ -157,18 +162,27 @@ where
                 break;
             }
         }
-        got.extend(sample_bytes(&out));
+        // the reader takes what the case says (default: everything), so that the output
+        // stream can be left nearly full
+        got.extend(sample_bytes_n(&out, drains.get(k).copied().unwrap_or(-1)));
     }
     if panic.is_empty() {
         drop(conn);
-        // after the peer closed: EOF
-        match catch(|| src.work().map(|r| format!("{r:?}"))) {
-            Ok(Ok(v)) => verdicts.push(v),
-            Ok(Err(e)) => verdicts.push(format!("err:{e}")),
-            Err(pn) => panic = pn,
-        }
-        if panic.is_empty() {
+        // after the peer closed: whatever is still in flight, then EOF
+        for _ in 0..20000 {
+            match catch(|| src.work().map(|r| format!("{r:?}"))) {
+                Ok(Ok(v)) => verdicts.push(v),
+                Ok(Err(e)) => verdicts.push(format!("err:{e}")),
+                Err(pn) => panic = pn,
+            }
+            if !panic.is_empty() {
+                break;
+            }
             got.extend(sample_bytes(&out));
+            let last = verdicts.last().map(|s| s.as_str()).unwrap_or("");
+            if last.contains("EOF") || last.starts_with("err") {
+                break;
+            }
         }
     }
     (got, verdicts, panic)
@@ -187,13 +201,14 @@ pub fn cmd_reasm(args: &[String]) -> i32 {
         let pieces: Vec<usize> = c["pieces"].as_array().unwrap().iter().map(|x| x.as_u64().unwrap() as usize).collect();
         let src = c["src"].as_str().unwrap();
         let size = c["size"].as_u64().unwrap();
+        let drains: Vec<i64> = c["drains"].as_array().map(|a| a.iter().map(|x| x.as_i64().unwrap_or(-1)).collect()).unwrap_or_default();
         let (got, verdicts, panic) = match (src, size) {
             ("file", 1) => reasm_file::<u8>(&bytes, &pieces),
             ("file", 4) => reasm_file::<u32>(&bytes, &pieces),
             ("file", _) => reasm_file::<Complex>(&bytes, &pieces),
-            ("tcp", 1) => reasm_tcp::<u8>(&bytes, &pieces),
-            ("tcp", 4) => reasm_tcp::<Float>(&bytes, &pieces),
-            _ => reasm_tcp::<Complex>(&bytes, &pieces),
+            ("tcp", 1) => reasm_tcp::<u8>(&bytes, &pieces, &drains),
+            ("tcp", 4) => reasm_tcp::<Float>(&bytes, &pieces, &drains),
+            _ => reasm_tcp::<Complex>(&bytes, &pieces, &drains),
         };
         writeln!(o, "{}", json!({"ev": "reasm", "src": src, "size": size, "bytes": bytes, "pieces": pieces,
             "out": got, "verdicts": verdicts, "panic": panic})).unwrap();
